@@ -292,7 +292,8 @@ def cue_groups(c):
                     ("pending_tags_are_the_trailing_tags", z3.And(z3.Length(pend.tags) == s.ntrail, s.ntrail >= 0, s.ntrail <= ns,
                                                                   pend.tags == z3.SubSeq(s.stack, ns - s.ntrail, s.ntrail))),
                     ("current_layout_is_that_of_the_last_text", cl_t == CUR(i)),
-                    ("text_before_the_trailing_tags_once_a_layout_is_set", z3.Implies(cl_t != heap.NONE_REF, z3.And(s.base != EMPTY, s.state != EMPTY))),
+                    ("has_text_is_a_text_node_so_far", sym.zbool(S.local("has_text")) == HASTEXT(i)),
+                    ("text_before_the_trailing_tags_once_a_text_was_written", z3.Implies(HASTEXT(i), z3.And(s.base != EMPTY, s.state != EMPTY))),
                     ("open_tags_are_those_of_the_open_span", z3.And(z3.Not(s.bad), g_tags,
                                                                     s.stack == z3.If(FLAT(i) == 1, tags_of(M(i)), E0))),
                     ("right_after_a_span_start_all_its_tags_are_trailing", z3.Implies(z3.And(i > 0, is_start(i - 1)), s.ntrail == ns)),
@@ -306,6 +307,7 @@ def cue_groups(c):
                                    "pending_tags": ("custom", lambda p_, v: Pending(z3.Const(p_._name("pending"), SEQ))),
                                    "layout_groups": ("custom", lambda p_, v: Groups(p_.fresh_bool("lines_ok"), p_.fresh_bool("tags_ok"), p_.fresh_int("groups"))),
                                    "current_layout": ("custom", lambda p_, v: OptLayout(p_.fresh_int("layout"))),
+                                   "has_text": ("bool", None),
                                    "resulting_style": ("skip", None), "styles": ("skip", None), "style": ("skip", None),
                                    "tags": ("skip", None), "i": ("skip", None), "node": ("skip", None)})
 
